@@ -198,6 +198,21 @@ def run_props(prop, relpath=None, timeout=600):
     return res
 
 
+def run_coqchk(prop, timeout=3000):
+    """Independent re-check of the compiled Props file and everything it depends on (thorough tier)."""
+    t0 = time.time()
+    rc, out = sh(['coqchk', '-silent', '-o', '-Q', COQ, 'PV', f'PV.Props.{prop}'], timeout)
+    summary = out[out.find('CONTEXT SUMMARY'):] if 'CONTEXT SUMMARY' in out else out[-1500:]
+    axioms = []
+    m = re.search(r'\* Axioms:(.*?)\n\s*\n\* Constants', summary, re.S)
+    if m:
+        axioms = [a.strip() for a in m.group(1).split('\n') if a.strip() and a.strip() != '<none>']
+    bad = [k for k in ('type-in-type', 'unsafe (co)fixpoints', 'positivity is assumed')
+           if re.search(re.escape(k) + r':\s*(?!<none>)\S', summary)]
+    return {'rc': rc, 'wall_s': round(time.time() - t0, 1), 'axioms': axioms, 'unsafe': bad,
+            'ok': rc == 0 and not bad, 'cmd': f'coqchk -silent -o -Q coq PV PV.Props.{prop}'}
+
+
 # --------------------------------------------------------------------------
 def zlit(z):
     z = int(z)
